@@ -25,6 +25,18 @@ CLAIMED = {
          "SetBuilder.tla models the builder state with one action per API call; the add path is an ignored argument. TLC checks length bookkeeping exhaustively to depth 5-6 and validates recorded operation sequences on one reused real set object (each schedule on four objects: mixed paths and each path alone), comparing reported lengths, header bytes, record buffers and the serialized message with the specification.",
          "Trusted: TLC, harness. Template records are added with empty-valued elements (well-formed use).",
          "TLA+ SetBuilder spec (TLC exhaustive) + TLC trace validation of recorded builder observations"),
+ "C03": ("DESIGN.md §4 C03",
+         "Collector.tla gives the outcome of decodePacket as a function of the bytes (Wire.tla's reference parser) and the template store: error, template or data with ExactDecode (every field at full width, leftover only padding shorter than a record, nothing conjured). The real decode path is driven exhaustively on a small scope (all bodies over a 4-symbol alphabet x 9 template states x modes), on every truncation and on mutated/random messages; TLC validates each recorded outcome; panics and hangs are events with no action.",
+         "Trusted: TLC, harness projections, verif hook. 'Promptly' = 3 s watchdog per message; memory growth is not measured separately (a runaway decode trips the watchdog).",
+         "TLA+ Collector/Wire specs + exhaustive small-scope driving of the real decoder + TLC trace validation"),
+ "C04": ("DESIGN.md §4 C04",
+         "Collector.tla's store is keyed by (domain, id); CollectorMC checks exhaustively (2 domains x 2 ids x 4 versions + bad-early/bad-late/bad-type/data, depth 4-5) that the byte-level model keeps exactly the latest valid template since the last invalidation and that actions on one key never touch another. Every history of length 2-3 and random long histories are run on the real collector; outcome and store snapshot are validated after every message.",
+         "Trusted: TLC, harness, verif hooks VerifDecodePacket/VerifTemplates.",
+         "TLA+ Collector spec (TLC exhaustive) + exhaustive/random history driving + TLC trace validation incl. store snapshots"),
+ "C17": ("DESIGN.md §4 C17",
+         "Collector.tla resolves each wire specifier against the registry per decoding mode (strict rejects and invalidates, keep delivers an octet array of the wire length, drop omits the value); the same template and data bytes are fed to three real collectors and TLC validates all three outcomes against the same reference parse, so known fields are unaffected by unknown ones in every mode.",
+         "Trusted: TLC, harness; the registry used by the spec is dumped from the real registry.",
+         "TLA+ Collector spec + TLC trace validation of the three decoding modes on identical bytes"),
 }
 PENDING = {}
 
